@@ -147,6 +147,9 @@ pub struct World {
     pub now: Ts,
     pub tals: Vec<Tal>,
     pub cas: Vec<Ca>,
+    /// Host names of repositories that differ from the default r<N>.rpki.test.
+    #[serde(default)]
+    pub host_override: std::collections::BTreeMap<usize, String>,
 }
 
 pub const YEAR: Ts = 365 * 86400;
@@ -179,7 +182,7 @@ impl World {
         false
     }
 
-    pub fn host(&self, repo: usize) -> String { format!("r{repo}.rpki.test") }
+    pub fn host(&self, repo: usize) -> String { self.host_override.get(&repo).cloned().unwrap_or_else(|| format!("r{repo}.rpki.test")) }
     /// The CA whose publication point `ca` uses (itself unless it is an alias).
     pub fn point_of(&self, ca: usize) -> usize { self.cas[ca].alias_of.unwrap_or(ca) }
     pub fn ca_repository(&self, ca: usize) -> String { let ca = self.point_of(ca); format!("rsync://{}/repo/ca{}/", self.host(self.cas[ca].repo), ca) }
@@ -269,7 +272,7 @@ pub fn gen_object(rng: &mut Rng, now: Ts, ca: usize, blocks: &[usize], n: usize,
 }
 
 pub fn generate(rng: &mut Rng, now: Ts, p: &GenParams) -> World {
-    let mut w = World { now, tals: Vec::new(), cas: Vec::new() };
+    let mut w = World { now, tals: Vec::new(), cas: Vec::new(), host_override: Default::default() };
     let mut next_key = 0usize;
     for t in 0..p.tals {
         let root = w.cas.len();
@@ -397,7 +400,7 @@ pub fn add_cycle(w: &mut World, from: usize, to: usize) -> usize {
 
 /// A TAL with a single chain of `len` CAs below the TA, each with `objs` objects.
 pub fn gen_chain(rng: &mut Rng, now: Ts, len: usize, objs: usize) -> World {
-    let mut w = World { now, tals: vec![Tal { name: "chain".into(), root: 0, uris: vec![TaState::Good], ta_nb: now - YEAR, ta_na: now + 10 * YEAR }], cas: Vec::new() };
+    let mut w = World { now, tals: vec![Tal { name: "chain".into(), root: 0, uris: vec![TaState::Good], ta_nb: now - YEAR, ta_na: now + 10 * YEAR }], cas: Vec::new(), host_override: Default::default() };
     for id in 0..=len {
         let this = now - 3600; let next = now + 3 * DAY;
         w.cas.push(Ca { id, parent: if id == 0 { None } else { Some(id - 1) }, tal: 0, key: id % super::keys::CA_KEYS, repo: id % 2, rrdp: false, extra_blocks: Vec::new(),
